@@ -185,6 +185,7 @@ template <typename T>
 inline vegas_pdf<T> vegas_refine_pdf(vegas_pdf<T> const& pdf, T alpha, std::vector<T> const& data)
 {
     using std::fmax;
+    using std::fmin;
     using std::log;
     using std::pow;
 
@@ -255,7 +256,8 @@ inline vegas_pdf<T> vegas_refine_pdf(vegas_pdf<T> const& pdf, T alpha, std::vect
             T const delta = (current - previous) * this_bin;
             T const new_left = current - delta / tmp[bin - 1];
 
-            new_pdf.set_bin_left(i, new_bin, new_left);
+            // the new boundary lies inside the old bin; do not let rounding move it out of it
+            new_pdf.set_bin_left(i, new_bin, fmin(fmax(new_left, previous), current));
         }
     }
 
